@@ -382,8 +382,9 @@ type CqlServerConnection struct {
 	cancel             context.CancelFunc
 	payloadAccumulator *payloadAccumulator
 
-	// channelsLock guards the closing of the outgoing channel: senders hold the read lock while they check that the
-	// connection is not closed and enqueue (without blocking); Close closes the channel under the write lock.
+	// channelsLock guards the closing of the incoming and outgoing channels: senders and the incoming loop hold the
+	// read lock while they check that the connection is not closed and enqueue (without blocking); Close closes the
+	// channels under the write lock.
 	channelsLock sync.RWMutex
 }
 
@@ -666,12 +667,18 @@ func (c *CqlServerConnection) reportConnectionFailure(err error, read bool) (abo
 
 func (c *CqlServerConnection) processIncomingFrame(incoming *frame.Frame) {
 	log.Debug().Msgf("%v: received incoming frame: %v", c, incoming)
-	select {
-	case c.incoming <- incoming:
-		log.Debug().Msgf("%v: incoming frame successfully delivered: %v", c, incoming)
-	default:
-		log.Error().Msgf("%v: incoming frames queue is full, discarding frame: %v", c, incoming)
+	c.channelsLock.RLock()
+	if c.IsClosed() {
+		log.Debug().Msgf("%v: connection closed, discarding frame: %v", c, incoming)
+	} else {
+		select {
+		case c.incoming <- incoming:
+			log.Debug().Msgf("%v: incoming frame successfully delivered: %v", c, incoming)
+		default:
+			log.Error().Msgf("%v: incoming frames queue is full, discarding frame: %v", c, incoming)
+		}
 	}
+	c.channelsLock.RUnlock()
 	if len(c.handlers) > 0 {
 		c.invokeRequestHandlers(incoming)
 	}
@@ -787,11 +794,9 @@ func (c *CqlServerConnection) Close() (err error) {
 		log.Debug().Msgf("%v: closing", c)
 		c.cancel()
 		err = c.conn.Close()
-		incoming := c.incoming
-		c.incoming = nil
-		close(incoming)
-		// the outgoing field is not set to nil, it is read by Send, SendRaw and by the outgoing loop
+		// the channel fields are not set to nil, they are read by Receive, Send, SendRaw and by the I/O loops
 		c.channelsLock.Lock()
+		close(c.incoming)
 		close(c.outgoing)
 		c.channelsLock.Unlock()
 		c.waitGroup.Wait()
